@@ -27,7 +27,7 @@ line (see `comment_glues` in `Lemmas/LexRender.lean`).
 `render` joins the spellings with ONE space; `expect off ws` are the tokens the lexer has to return
 for the text `render ws` placed at char offset `off` of line 0: kind and value of each word, offset
 and column = position of the spelling in the text, extent = length of the spelling, end column =
-start column + `value.len()`.
+start column + `value.chars().count()`.
 
 `wordOf upper s` is the executable classifier: the word a spelling stands for, if any
 (`wordOf_valid`: everything it returns is valid); the driver mode `renderspec` uses it.
